@@ -427,8 +427,14 @@ def render(am, rng, allow_any=True, allow_split=True, force=None):
             declared += 1
     classes = [full]
     # --- base class + subclass split
-    if allow_split and not use_any and am["anyg"] is None and rng.random() < force.get("p_split", 0.3):
+    if allow_split and rng.random() < force.get("p_split", 0.3):
         cuts = [c for c in range(1, len(full)) if _valid_split(am, full, c)]
+        if use_any:
+            # every state is declared (in the base) before anything else: a state first declared in the
+            # subclass after the base's any() event is finding D16a (no expansion to later states)
+            nstate = sum(1 for st in full if st[0] in ("state", "sdict", "senum"))
+            cuts = [c for c in cuts if c >= nstate]
+            tags.add("inheritance_with_any") if cuts else None
         if cuts:
             c = rng.choice(cuts)
             classes = [full[:c], full[c:]]
